@@ -137,7 +137,9 @@ FIXED = [
     "P00 Ms G0 FA- / call:-:ok1 call:-:ok2 waitev:aw:2 close ~ resp:1:r8 resp:0:e103",
     "P00 Ms G0 FA- / call:-:ok1 waitev:wc:1 close ~ waitev:xb:1 nap resp:0:r9",              # Close waits for the outstanding call
     "P00 Ms G0 FA- / call:-:ok1 ~ waitev:wc:1 readerr",                                        # read error retires the call
-    "P00 Ms G0 FA0 / call:-:ok1 call:-:ok2 ~ resp:0:r5",                                       # write error: call retired, later calls refused
+    "P00 Ms G0 FA0 / call:-:ok1 call:-:ok2 ~ resp:0:r5",
+    "P00 Ms G0 FA0 / call:-:ok1 ~ waitev:wc:1 readerr",                                        # failed write racing with the read error (both want to retire)
+    "P00 Ms G0 FA- / call:x:ok1 ~ waitev:wc:1 readerr",                                       # write error: call retired, later calls refused
     "P00 Ms G0 FA- / call:b:ok1 call:x:ok2 notify:b:x notify:x:y notify:-:z",                  # marshal errors, cancelled ctx
     "P00 Ms G0 FA0 / notify:-:a notify:-:b call:-:ok1",                                        # notify write error
     "P00 Ms G0 FA- / close call:-:ok1 notify:-:x",                                             # calls after Close are refused
@@ -304,14 +306,14 @@ def run(ctx):
         sizes["%d-%d events" % (b, b + 9)] = sizes.get("%d-%d events" % (b, b + 9), 0) + 1
     ok_i = [i for (i, v, _, _) in res if v == "ok"]
     samples = [{"scenario": lines[i], "history_A": res[i][2][:400]} for i in (ok_i[:1] + ok_i[len(FIXED) + 1:len(FIXED) + 3])]
-    ctx.cover(evaluations=len(lines), distinct_nontrivial=len(nontriv), samples=samples,
+    ctx.cover(evaluations=len(hists), distinct_nontrivial=len(nontriv), samples=samples,
               rule="%d fixed scenarios (one or more per transition of the model) + %d seeded random scenarios (2/3 scripted peer with "
                    "injected read/write errors, 1/3 two real Connections over net.Pipe), each under 3 schedules (Gosched/sleep "
-                   "injection levels 0,2,6), harness built with -race; every recorded history (%d, both sides of the real pairs) replayed "
-                   "through the extracted step function; non-trivial = distinct history with >= 8 events and at least one call or "
+                   "injection levels 0,2,6; %d scenario runs), harness built with -race; every recorded history (%d = evaluations, both sides "
+                   "of the real pairs) replayed through the extracted step function; non-trivial = distinct history with >= 8 events and at least one call or "
                    "incoming request. Not generated (contract of the Handler, stated in the model): Respond before the handler returned "
                    "ErrAsyncResponse or twice, ErrAsyncResponse for a notification, non-nil result together with an error, negative IDs."
-                   % (len(FIXED), nrand, len(hists)),
+                   % (len(FIXED), nrand, len(lines), len(hists)),
               scenario_kinds=kindhist, event_histogram=dict(sorted(evhist.items(), key=lambda kv: -kv[1])),
               history_length_histogram=sizes, histories=len(hists), histories_rejected=len(rejected),
               oracle_failures=nfail, max_model_state_set=maxstates)
